@@ -16,7 +16,9 @@ from .. import analysis
 from ..astutil import calls_in, call_name, where, kw
 from ..cfg import build_cfg
 from ..facts import instance_fields, init_of
-from ..model import AnalysisError, ClassInfo, unparse, walk_no_nested
+from ..logic import known
+from ..model import AnalysisError, ClassInfo, unparse, walk_no_nested, canonical_name
+from ..symtext import Expander, effect_calls
 
 DECIDED = [
     "ALIAS-1 each clone chain must-writes every mutable container field of the copy with a fresh, element-fresh container and detaches the copy (_parent = None)",
@@ -180,9 +182,9 @@ def run(prog, rep):
                         rep.check(fresh, "ALIAS-2", "%s: %s" % (f.short, unparse(c)[:50]), "appends a clone",
                                   "%s appends an object that is not a fresh clone (origin %s): original and copy share the child"
                                   % (f.short, sorted(org)), where(f, c), witness="edit a child of the clone; the original's child changes (and lost its parent)")
-                        conds = [(unparse(t), pol) for t, pol, _ in g.dominating_conditions(node)]
-                        rep.check(("children", "true") in conds, "ALIAS-2", "%s: append under `if children`" % f.short, "ok",
-                                  "children are added although children=False may have been requested (guards: %s)" % conds, where(f, c),
+                        under = known(g, node, lambda lf: "C" if isinstance(lf, ast.Name) and lf.id == "children" else None, lambda a0: a0["C"], ["C"])
+                        rep.check(under, "ALIAS-2", "%s: append under `if children`" % f.short, "ok",
+                                  "children are added on a path that does not know `children` to be requested", where(f, c),
                                   witness="clone(children=False) has children")
     rep.floor("ALIAS-2", n_add, 2, "child appends in the clone functions")
 
@@ -253,17 +255,28 @@ def run(prog, rep):
                        "Properties are appended as clones; Property.export_leaf delegates to the parent Section")
     el = prog.func("section.BaseSection.export_leaf")
     rep.saw_function(el)
-    cl = [c for c in calls_in(el.node) if isinstance(c.func, ast.Attribute) and c.func.attr == "clone"]
-    rep.floor("LEAF-1", len(cl), 2, "clone calls in export_leaf")
-    for c in cl:
+    cl = effect_calls(prog, el, lambda c: isinstance(c.func, ast.Attribute) and c.func.attr == "clone")
+    rep.floor("LEAF-1", len(cl), 2, "clone calls in export_leaf (helpers inlined)")
+    for e in cl:
+        c = e.call
         k = kw(c, "keep_id", None)
-        rep.check(isinstance(k, ast.Constant) and k.value is True, "LEAF-1", "export_leaf: %s" % unparse(c)[:50], "keep_id=True",
-                  "export_leaf clones with %s: the exported chain does not carry the original ids" % unparse(c)[:60], where(el, c),
+        rep.check(isinstance(k, ast.Constant) and k.value is True, "LEAF-1", "export_leaf: %s" % unparse(e.raw)[:50], "keep_id=True",
+                  "export_leaf clones with %s: the exported chain does not carry the original ids" % unparse(e.raw)[:60], where(e.func, e.raw),
                   witness="export_leaf() ids differ from the document's")
-    sec_cl = [c for c in cl if unparse(c.func.value) in ("curr",) or kw(c, "children", None) is not None]
+    sec_cl = [e.call for e in cl if kw(e.call, "children", None) is not None]
     rep.check(any(isinstance(kw(c, "children", None), ast.Constant) and kw(c, "children", None).value is False for c in sec_cl),
               "LEAF-1", "export_leaf clones chain Sections without children", "children=False",
               "the chain Sections are cloned with their children: other sub-Sections are exported too", el.where)
+    # every object appended while exporting is a clone (never an original child)
+    apps = effect_calls(prog, el, lambda c: isinstance(c.func, ast.Attribute) and c.func.attr in ("append", "insert", "extend"))
+    for e in apps:
+        arg = e.call.args[-1] if e.call.args else None
+        t = unparse(arg) if arg is not None else "?"
+        is_clone = isinstance(arg, ast.Call) and isinstance(arg.func, ast.Attribute) and arg.func.attr == "clone"
+        is_prev = isinstance(arg, ast.Name)      # the clone built in the previous iteration (state variable)
+        rep.check(is_clone or is_prev, "LEAF-1", "export_leaf appends %s" % t[:40], "a clone",
+                  "export_leaf appends `%s`, which is not a clone: the export shares objects with the document" % t[:60], where(e.func, e.raw),
+                  witness="editing the exported tree edits the document")
     pel = prog.func("property.BaseProperty.export_leaf")
     rep.check(any(unparse(c.func).endswith("parent.export_leaf") for c in calls_in(pel.node)), "LEAF-1",
               "Property.export_leaf delegates to the parent Section", "ok", "Property.export_leaf does not delegate to parent.export_leaf()", pel.where)
@@ -274,9 +287,8 @@ def run(prog, rep):
     vg = prog.cls("BaseProperty").lookup_prop("values", "getter")
     rep.saw_function(vg)
     rets = [n.value for n in walk_no_nested(vg.node) if isinstance(n, ast.Return)]
-    good = len(rets) == 1 and isinstance(rets[0], ast.ListComp) and "list(" in unparse(rets[0].elt) \
-        and unparse(rets[0].generators[0].iter) == "%s._values" % vg.params[0]
-    deep = len(rets) == 1 and isinstance(rets[0], ast.Call) and call_name(rets[0]) == "copy.deepcopy"
+    good = len(rets) == 1 and _fresh_copy_of(vg, rets[0], "%s._values" % vg.params[0])
+    deep = len(rets) == 1 and isinstance(rets[0], ast.Call) and canonical_name(prog, vg, rets[0].func) == "copy.deepcopy"
     rep.check(good or deep, "ALIAS-3", "values getter copies the list and inner lists", unparse(rets[0])[:70] if rets else "",
               "the values getter returns %s: the stored list (or the inner lists of n-tuple values) is shared with the caller"
               % (unparse(rets[0])[:70] if rets else "nothing"), vg.where, witness="p.values[0].append('z') on a 2-tuple Property changes p")
@@ -293,7 +305,7 @@ def run(prog, rep):
                 val = n.value
             if val is None:
                 continue
-            ok = _converted(val, f)
+            ok = _converted(val, f, prog)
             rep.check(ok, "ALIAS-3", "%s: stores %s" % (f.short, unparse(val)[:40]), "result of dtypes.get",
                       "%s puts %s into _values without converting it: the caller's object is stored" % (f.short, unparse(val)[:60]),
                       where(f, n), witness="p.%s(lst) then mutating lst changes p" % name)
@@ -312,13 +324,57 @@ def run(prog, rep):
     rep.assume("copy.copy produces a new object sharing the field values; SmartList(...) creates an empty list")
 
 
-def _converted(val, f):
-    from ..astutil import local_assignments
-    if isinstance(val, ast.Call) and call_name(val) == "dtypes.get":
+def _copies_inner(elt, var):
+    """the element expression copies list elements: list(v) / v[:] / copy.copy(v) / list(v) if isinstance(v, list) else v"""
+    if isinstance(elt, ast.IfExp):
+        return _copies_inner(elt.body, var) or _copies_inner(elt.orelse, var)
+    if isinstance(elt, ast.Call) and unparse(elt.func) in ("list", "copy.copy", "copy.deepcopy", "copy", "deepcopy") and elt.args and unparse(elt.args[0]) == var:
         return True
-    if isinstance(val, ast.ListComp) and isinstance(val.elt, ast.Call) and call_name(val.elt) == "dtypes.get":
+    if isinstance(elt, ast.Subscript) and unparse(elt.value) == var and isinstance(elt.slice, ast.Slice):
+        return True
+    return False
+
+
+def _fresh_copy_of(f, expr, source_text):
+    """expr is a new list built element by element from <source_text> whose list elements are copied:
+    [copy(v) for v in S]  or a local initialised [] and filled by append(copy(v)) in `for v in S`."""
+    if isinstance(expr, ast.ListComp) and len(expr.generators) == 1 and unparse(expr.generators[0].iter) == source_text \
+            and isinstance(expr.generators[0].target, ast.Name):
+        return _copies_inner(expr.elt, expr.generators[0].target.id)
+    if isinstance(expr, ast.Name):
+        from ..astutil import local_assignments
+        defs = local_assignments(f.node, expr.id)
+        if len(defs) == 1 and not isinstance(defs[0], ast.AugAssign):
+            if isinstance(defs[0], ast.ListComp):
+                return _fresh_copy_of(f, defs[0], source_text)
+            if isinstance(defs[0], ast.List) and not defs[0].elts:
+                muts = [c for c in calls_in(f.node) if isinstance(c.func, ast.Attribute) and unparse(c.func.value) == expr.id]
+                if not muts or any(c.func.attr != "append" for c in muts):
+                    return False
+                for c in muts:
+                    ok = False
+                    for loop in ast.walk(f.node):
+                        if isinstance(loop, ast.For) and isinstance(loop.target, ast.Name) and unparse(loop.iter) == source_text \
+                                and any(y is c for y in ast.walk(loop)) and _copies_inner(c.args[0], loop.target.id):
+                            ok = True
+                    if not ok:
+                        return False
+                return True
+    return False
+
+
+def _converted(val, f, prog=None):
+    x = Expander(f)
+    vx = x.expand(val)
+
+    def is_get(c):
+        return isinstance(c, ast.Call) and (canonical_name(prog, f, c.func) if prog is not None else call_name(c)) == "dtypes.get"
+    if is_get(vx):
+        return True
+    if isinstance(vx, (ast.ListComp, ast.GeneratorExp)) and is_get(vx.elt):
         return True
     if isinstance(val, ast.Name):
+        from ..astutil import local_assignments
         defs = local_assignments(f.node, val.id)
-        return bool(defs) and all(isinstance(d, ast.Call) and call_name(d) == "dtypes.get" for d in defs)
+        return bool(defs) and all(not isinstance(d, ast.AugAssign) and (is_get(x.expand(d)) or (isinstance(x.expand(d), ast.ListComp) and is_get(x.expand(d).elt))) for d in defs)
     return False
